@@ -19,6 +19,11 @@ import (
 // ---- world of the shell mode ------------------------------------------------
 
 type shWorld struct {
+	// A revision is pushed to the origin when the first invocation is about
+	// to execute its commitAtStep-th command (0 = never).
+	commitAtStep int
+	commitDone   bool
+	commitLog    string
 	dir    string // HOME and basedir
 	bin    string // PATH prefix with stubs
 	events string
@@ -115,6 +120,21 @@ func (w *shWorld) commit(good bool, email string) (string, error) {
 	return token, nil
 }
 
+// seedPolicyNumber commits a POLICY file like the one newpolicy.sh maintains.
+func (w *shWorld) seedPolicyNumber(n int) error {
+	work := filepath.Join(w.dir, "work")
+	env := w.env()
+	os.WriteFile(filepath.Join(work, "POLICY"), []byte(fmt.Sprintf("# p%d # Current policy, don't edit manually!\n", n)), 0644)
+	run(work, env, "git", "add", "-A")
+	if out, err := run(work, env, "git", "commit", "-q", "-m", fmt.Sprintf("p%d", n)); err != nil {
+		return fmt.Errorf("seed commit: %v %s", err, out)
+	}
+	if out, err := run(work, env, "git", "push", "-q", "origin", "master"); err != nil {
+		return fmt.Errorf("seed push: %v %s", err, out)
+	}
+	return nil
+}
+
 // originHead returns DATA token and BAD flag of the newest revision.
 func (w *shWorld) originHead() (token string, bad bool) {
 	origin := filepath.Join(w.dir, "origin.git")
@@ -183,6 +203,16 @@ func (w *shWorld) checkDB(history *[]int) (key, msg string) {
 	}
 	if _, err := os.Stat(filepath.Join(dir, "code", ".compiled-ok")); err != nil {
 		return "current-invalid", fmt.Sprintf("'current' -> %q which was not produced by a successful compile", target)
+	}
+	if comp, err1 := os.ReadFile(filepath.Join(dir, "code", ".compiled-ok")); err1 == nil {
+		src, err2 := os.ReadFile(filepath.Join(dir, "src", "DATA"))
+		if err2 != nil {
+			src = []byte("none\n")
+		}
+		if string(src) != string(comp) {
+			return "current-source-not-compiled", fmt.Sprintf("'current' -> %q: its source tree holds revision %q, compiled was %q",
+				target, strings.TrimSpace(string(src)), strings.TrimSpace(string(comp)))
+		}
 	}
 	if _, err := os.Stat(filepath.Join(dir, "src", "BAD")); err == nil {
 		return "bad-commit-moved-current", fmt.Sprintf("'current' -> %q whose source does not compile", target)
@@ -439,6 +469,12 @@ func (c *Ctx) shRun(w *shWorld, n int, sched *tape.Tape, killAt *killPoint, hist
 			}
 		}
 		cur = inv
+		if w.commitAtStep > 0 && !w.commitDone && inv == invs[0] && inv.steps+1 == w.commitAtStep {
+			w.commitDone = true
+			if tok, err := w.commit(true, ""); err == nil {
+				w.commitLog = fmt.Sprintf("commit %s good=true pushed while the run was at step %d", tok, w.commitAtStep)
+			}
+		}
 		r := inv.pending[0]
 		nc := normCmd(r.cmd)
 		inv.occ[nc]++
@@ -491,6 +527,15 @@ func c19Run(c *Ctx, tp *tape.Tape, extra map[string]any) *Failure {
 	fail := func(key, msg string, ex map[string]any) *Failure {
 		return &Failure{Key: key, Msg: msg, Extra: ex, Log: evlog, Input: map[string]any{"events": evlog}}
 	}
+	// The repository may come with a POLICY file from earlier times, so
+	// that numbers cross a decimal boundary soon (p9 -> p10, p99 -> p100).
+	if n := []int{0, 0, 8, 9, 98}[tp.Next(5)]; n > 0 {
+		if err := w.seedPolicyNumber(n); err != nil {
+			c.HarnessError("%v", err)
+			return nil
+		}
+		evlog = append(evlog, fmt.Sprintf("repository starts with POLICY file '# p%d'", n))
+	}
 	// History of commits and undisturbed runs first.
 	nEv := 1 + tp.Next(4)
 	for i := 0; i < nEv; i++ {
@@ -532,11 +577,38 @@ func c19Run(c *Ctx, tp *tape.Tape, extra map[string]any) *Failure {
 		return nil
 	}
 	evlog = append(evlog, fmt.Sprintf("commit %s good=%v email=%q", tok, good, email))
-	mode := tp.Next(3)
+	mode := tp.Next(4)
 	if extra != nil {
 		mode = toInt(extra["mode"])
 	}
 	c.Count(fmt.Sprintf("mode_%d", mode), 1)
+	if mode == 3 {
+		// A further revision is pushed to the origin while the run is under
+		// way (at a tape-chosen command).
+		step := 2 + tp.Next(70)
+		if extra != nil {
+			step = toInt(extra["step"])
+		}
+		ex := map[string]any{"mode": 3, "step": step}
+		w.commitAtStep = step
+		invs, k, m, err := c.shRun(w, 1, nil, nil, &history)
+		c.Res.Evaluations++
+		if err != nil {
+			c.HarnessError("%v", err)
+			return nil
+		}
+		evlog = append(evlog, fmt.Sprintf("run: %d steps, exit %d, current history %v", invs[0].steps, invs[0].exit, history))
+		if w.commitLog != "" {
+			evlog = append(evlog, w.commitLog)
+			c.Count("commits_during_run", 1)
+		}
+		w.commitAtStep = 0
+		c.NonTrivial(strings.Join(evlog, "\n"))
+		if k != "" {
+			return fail(k, m, ex)
+		}
+		return c.shLiveness(w, &history, &evlog, fail, ex)
+	}
 	if mode == 0 {
 		// Two or three simultaneous invocations, interleaved step by step.
 		n := 2 + tp.Next(2)
